@@ -104,28 +104,39 @@ theorem disabled_executes_all (P : Params κ) (cfg : Cfg) (defs : Defs) (fuel : 
   no_hit_executes P cfg defs fuel t s hm hd ohs ho (forced_no_hit P cfg t _ s (Or.inr (Or.inr hc)))
 
 /-- **dependants_iff_outputs_changed.** A dependant sees a re-executed target only through its output hash
-    (`keyState` takes the hashes of the dependencies and nothing else of them). For a forced execution that hash
-    is an injective function of the produced (definition, value) list: it is unchanged iff the outputs are. (A
-    target without outputs exposes its own key instead, which is unchanged when its state is.) -/
-theorem dependants_iff_outputs_changed (cfg : Cfg) (t : Target) (k : κ) (ovs₁ ovs₂ : Outs)
-    (h : t.noCache = true ∨ cfg.enableCache = false ∨ t.outs ≠ []) :
+    (`keyState` takes the hashes of the dependencies and nothing else of them). For a target with declared outputs that hash
+    is, in every mode (cached, no-cache, cache disabled), an injective function of the produced (definition, value) list:
+    it is unchanged iff the outputs are. -/
+theorem dependants_iff_outputs_changed (cfg : Cfg) (t : Target) (k : κ) (ovs₁ ovs₂ : Outs) (h : t.outs ≠ []) :
     ohFor cfg t k ovs₁ = ohFor cfg t k ovs₂ ↔ ovs₁ = ovs₂ := by
   constructor
   · intro he
     unfold ohFor at he
     split at he
-    · simpa using he
-    · split at he
-      · rename_i h1 h2
-        rcases h with h | h | h
-        · simp [h] at h1
-        · simp [h] at h1
-        · exact absurd (List.isEmpty_iff.1 h2) h
-      · simpa using he
+    · rename_i h1; exact absurd (List.isEmpty_iff.1 h1) h
+    · split at he <;> simpa using he
   · intro he; rw [he]
 
-example : ∃ (cfg : Cfg) (t : Target), t.noCache = true ∨ cfg.enableCache = false ∨ t.outs ≠ [] :=
-  ⟨⟨true, false⟩, mkT [97] [⟨false, [111]⟩] [] false, Or.inr (Or.inr (by simp [mkT]))⟩
+/-- **outputless_exposes_key.** A target without outputs exposes its own key — whether it ran cached, as a no-cache target
+    or with the cache disabled (the record such a run leaves is a usable hit later, so all three must agree: regression,
+    see `outputless_disabled_witness`). It is unchanged iff the target's state is. -/
+theorem outputless_exposes_key (cfg : Cfg) (t : Target) (k : κ) (ovs : Outs) (h : t.outs = []) : ohFor cfg t k ovs = .self k := by
+  simp [ohFor, h]
+
+/-- **outputless_disabled_witness** (regression). Before the repair the no-cache / cache-disabled branch came first: an
+    output-less target run with the cache disabled exposed `.nocache []` (a constant) and a later run with the cache enabled
+    exposed its key, so a dependant's key changed although nothing had changed, and did not change when the target did. -/
+theorem outputless_disabled_witness :
+    ∃ (t : Target), t.outs = [] ∧ ∀ (k₁ k₂ : Nat),
+      (fun (cfg : Cfg) (k : Nat) => (if t.noCache || !cfg.enableCache then OH.nocache [] else if t.outs.isEmpty then OH.self k else OH.outs []))
+        ⟨false, false⟩ k₁ =
+      (fun (cfg : Cfg) (k : Nat) => (if t.noCache || !cfg.enableCache then OH.nocache [] else if t.outs.isEmpty then OH.self k else OH.outs []))
+        ⟨false, false⟩ k₂ ∧
+      (k₁ ≠ k₂ → ohFor ⟨false, false⟩ t k₁ [] ≠ ohFor ⟨false, false⟩ t k₂ []) ∧
+      ohFor ⟨false, false⟩ t k₁ [] = ohFor ⟨true, false⟩ t k₁ [] :=
+  ⟨mkT [97] [] [] false, rfl, fun k₁ k₂ => ⟨rfl, fun hne he => by simp [ohFor, mkT] at he; exact hne he, rfl⟩⟩
+
+example : ∃ (t : Target), t.outs ≠ [] := ⟨mkT [97] [⟨false, [111]⟩] [] false, by simp [mkT]⟩
 
 /-- the key of a dependant is a function of its own definition, its input contents and the output hashes of its
     dependencies: equal hashes, equal key -/
